@@ -542,4 +542,65 @@ def resolveConflictsNew (sha : ID → Bytes) (ver : Bytes) (sets : List (List Ev
       some (resolveV2New row.stateResAlgorithm sets auth rejected).result
     else none
 
+/-! ## The deprecated entry points (`ResolveStateConflictsV2`, `ResolveConflicts`) -/
+
+/-- `calculateAuthDifference` (the old routine).  `authSets[c]` = the auth events (of the auth map) reachable from the
+    conflicted event `c`; it exists only when that set is not empty.  An auth event is in the difference iff
+    `isInAllAuthLists` answers false for it: it is itself a conflicted event with a non-empty `authSets` entry, and some
+    member `k` of that entry has no entry of its own or is not a member of its own entry. -/
+def authDifferenceOld (authMap confMap : List Event) : List Event :=
+  let sets (id : ID) : Option (List ID) :=
+    match findByID confMap id with
+    | none => none
+    | some c =>
+      let ch := authClosure authMap (authMap.length + 1) [c] []
+      if ch.isEmpty then none else some ch
+  authMap.filter (fun a => match sets a.eventID with
+    | none => false
+    | some ch => !(ch.all (fun k => match sets k with
+        | none => false
+        | some chk => chk.contains k)))
+
+/-- `ResolveStateConflictsV2` (deprecated): the caller supplies the conflicted / unconflicted split; nothing is returned when the
+    auth events lack a create event; the unconflicted events are applied first in the order given; the create event for the
+    creator bonus of the power ordering is the resolved one only (`r.createEvent` is never set here). -/
+def resolveV2Old (conflicted unconflicted auth : List Event) (rejected : List ID) : List ID :=
+  match getCreateEvent auth with
+  | none => []
+  | some _ =>
+    let authMap := eventMapFromEvents auth
+    let confMap := eventMapFromEvents conflicted
+    let unconfIDs := unconflicted.map (·.eventID)
+    let authDiff := authDifferenceOld authMap confMap
+    let fullConflicted := conflicted ++ authDiff
+    let roots := fullConflicted.filter (fun p => !unconfIDs.contains p.eventID && isControlEvent p)
+    let controlIDs := controlClosure confMap (confMap.length + 1) roots (eventMapFromEvents roots |>.map (·.eventID))
+    let lookupAny (id : ID) : Option Event := match findByID fullConflicted id with
+      | some e => some e
+      | none => findByID confMap id
+    let controlEvents := controlIDs.filterMap lookupAny
+    let others := (eventMapFromEvents fullConflicted).filter (fun p =>
+      !unconfIDs.contains p.eventID && !isControlEvent p && !controlIDs.contains p.eventID)
+    let s1 := applyEvents [] unconflicted
+    let controlOrder := reverseTopoAuth authMap (s1.get b!"m.room.create" []) controlEvents
+    let s2 := authAndApply authMap rejected s1 controlOrder
+    let mainline := createMainline authMap (s2.get b!"m.room.power_levels" [])
+    let othersOrder := mainlineOrdering authMap mainline others
+    let s3 := authAndApply authMap rejected s2 othersOrder
+    let s4 := applyEvents s3 unconflicted
+    s4.map (·.2.eventID)
+
+/-- `ResolveConflicts` (deprecated): "conflicted" is decided by key multiplicity over the distinct input events -/
+def resolveConflictsOld (sha : ID → Bytes) (ver : Bytes) (events auth : List Event) (rejected : List ID) :
+    Option (List ID) :=
+  match versionRow? ver with
+  | none => none
+  | some row =>
+    let (conflicted, notConflicted) := splitConflictedUnconflicted true [events]
+    if row.stateResAlgorithm == 1 then
+      some ((resolveV1 sha conflicted auth ++ notConflicted).map (·.eventID))
+    else if row.stateResAlgorithm == 2 || row.stateResAlgorithm == 3 then
+      some (resolveV2Old conflicted notConflicted auth rejected)
+    else none
+
 end V.StateRes
